@@ -138,7 +138,10 @@ func fnPkgPath(fn *ssa.Function) string {
 }
 
 func inModule(fn *ssa.Function) bool {
-	if fn == nil || fn.Synthetic != "" && fn.Parent() == nil && fn.Pkg == nil {
+	if fn == nil {
+		return false
+	}
+	if fn.Synthetic != "" && fn.Parent() == nil && fn.Pkg == nil && fn.Origin() == nil {
 		return false
 	}
 	p := fnPkgPath(fn)
